@@ -27,9 +27,9 @@ SPEC = {
 
 
 def run(ctx: Ctx):
-    exmap.r3_1(ctx)
-    frames.orthonormal(ctx, "R1.1")
-    exmap.r1_2(ctx)
-    exmap.r1_3(ctx)
-    exmap.r1_4(ctx)
-    exmap.r2_1(ctx)
+    ctx.attempt("R3.1", lambda: exmap.r3_1(ctx))
+    ctx.attempt("R1.1", lambda: frames.orthonormal(ctx, "R1.1"))
+    ctx.attempt("R1.2", lambda: exmap.r1_2(ctx))
+    ctx.attempt("R1.3", lambda: exmap.r1_3(ctx))
+    ctx.attempt("R1.4", lambda: exmap.r1_4(ctx))
+    ctx.attempt("R2.1", lambda: exmap.r2_1(ctx))
